@@ -217,7 +217,7 @@ def evaluate_single(spec):
         return {"sig": "baseline: " + f0, "detail": (o0.run.exc or "")[-300:], "nontrivial": False, "evals": 1}
     o = run_variant(b, pkts, keylog, "fault")
     sig, detail = judge(spec, b, seqs, o, fault, note)
-    nontrivial = bool(_victim_exports(spec, b0, o0)) and any(v for v in seqs.values())
+    nontrivial = (bool(_victim_exports(spec, b0, o0)) or bool(spec["conns"][0].get("abort_after_ch"))) and any(v for v in seqs.values())
     return {"sig": sig, "detail": detail, "nontrivial": nontrivial, "labels": _labels(spec, fault, b, o0), "evals": 2,
             "key": engine.spec_hash([spec["conns"][0]["kind"], fault, [c["kind"] for c in spec["conns"]], spec["conns"][0].get("seed")])}
 
@@ -328,6 +328,23 @@ def key_subset_specs(tier):
     return out
 
 
+def aborted_handshake_specs():
+    """undecryptable flows of another kind: a handshake that is aborted by a plaintext alert right after the ClientHello (warning or fatal,
+    from either side, every version) next to healthy bystanders; fault = none, the flow itself is the damaged one"""
+    out = []
+    i = 0
+    for ver, code in ((tlsref.SSL30, 0x000A), (tlsref.TLS10, 0x002F), (tlsref.TLS11, 0x0005), (tlsref.TLS12, 0xC02F), (tlsref.TLS13, 0x1301)):
+        for who in (0, 1):
+            for level, desc in ((1, 0), (2, 40), (1, 100), (2, 70)):
+                victim = {"kind": "tls", "seed": 6100 + i, "version": ver, "suite": code, "abort_after_ch": [who, level, desc], "history": [],
+                          "ep": scenario.default_ep(0), "tcp": {"mode": "rec", "syn": bool(i % 2)}}
+                by = {"kind": "tls", "seed": 6200 + i, "version": tlsref.TLS12, "suite": 0xC02F, "history": [[0, 10, 0], [1, 20, 0]], "cert_len": 40,
+                      "ep": scenario.default_ep(1), "tcp": {"mode": "rec", "syn": False}, "close": 3}
+                out.append({"conns": [victim, by], "order": [0, 1, 1], "tseed": 3 + i, "fault": {"kind": "none"}})
+                i += 1
+    return out
+
+
 def hello_specs(tier):
     out = []
     combos = [(0x002F, tlsref.TLS10), (0x009C, tlsref.TLS12), (0x1301, tlsref.TLS13), (0x000A, tlsref.SSL30)]
@@ -352,8 +369,11 @@ def conn_any(draw, idx, small=True, kinds=("tls", "quic")):
     k = draw(st.sampled_from(list(kinds)))
     ep = strategies.endpoints(idx=idx)
     if k == "tls":
-        return draw(strategies.tls_conn(max_records=5 if small else 10, max_len=300 if small else 1500, ep=ep,
-                                        delivery=strategies.tcp_delivery(modes=("rec", "flight", "cuts"), wrap=False)))
+        c = draw(strategies.tls_conn(max_records=5 if small else 10, max_len=300 if small else 1500, ep=ep,
+                                     delivery=strategies.tcp_delivery(modes=("rec", "flight", "cuts"), wrap=False)))
+        if idx == 0 and draw(st.integers(0, 9)) == 0:
+            c["abort_after_ch"] = [draw(st.integers(0, 1)), draw(st.integers(1, 2)), draw(st.sampled_from([0, 40, 70, 100]))]
+        return c
     return draw(strategies.quic_conn(max_steps=5 if small else 10, ep=ep))
 
 
@@ -541,6 +561,7 @@ def stages(tier):
     return [
         Stage("all-positions", evaluate_positions, strategy=lambda t: base_scenario(small=True), examples=32 if quick else 600, shrink=False),
         Stage("hello-bitflips", evaluate_hello_bits, specs=hello_specs(tier), chunksize=1),
+        Stage("aborted-handshakes", evaluate_single, specs=aborted_handshake_specs()),
         Stage("all-key-subsets", evaluate_key_subsets, specs=key_subset_specs(tier), chunksize=1),
         Stage("single-faults", evaluate_single, strategy=lambda t: single_fault_scenario(), examples=500 if quick else 30000),
         Stage("udp-datagrams", evaluate_datagrams, strategy=datagram_strategy, examples=2000 if quick else 100000),
@@ -550,7 +571,8 @@ def stages(tier):
 
 RULE = ("scenario = 1 victim (TLS any version/suite or QUIC) + 1-3 healthy bystanders; stage all-positions ENUMERATES, for each generated "
         "scenario, every fault in {delete, cut before, cut after, drop the victim's packets up to here (capture starts mid-connection), flip bit, overwrite, "
-        "shorten} at EVERY packet of the victim; stage "
+        "shorten} at EVERY packet of the victim; stage aborted-handshakes runs handshakes that a "
+        "plaintext alert ends right after the ClientHello (every version, either side, warning / fatal); stage "
         "all-key-subsets removes / randomises EVERY non-empty subset of the key-log lines of TLS 1.3, TLS 1.2 and QUIC victims; stage "
         "single-faults draws one fault from those plus {remove any subset of the victim's key-log lines, random secrets, unknown suite id in "
         "ServerHello, plain HTTP on a watched port, arbitrary/QUIC-shaped UDP payloads}; oracle: exit 0 without traceback, every bystander "
